@@ -61,13 +61,13 @@ func equalLS(a, b lockSet) bool {
 
 type lockAnalysis struct {
 	c        *Ctx
-	entry    map[*ssa.Function]lockSet                // lock-set at function entry (intersection over call sites)
-	at       map[ssa.Instruction]lockSet              // lock-set just before each instruction
-	copyLock []ssa.Instruction                        // Lock calls on a mutex inside a by-value copy
-	acquires []acquireEv                              // every Lock/RLock with the set held at that point
-	callers  map[*ssa.Function][]ssa.Instruction      // resolved call sites per callee
-	dynEdges map[*ssa.Function][]*ssa.Function        // extra call edges (task / retry closures invoked dynamically)
-	dynSites map[*ssa.Function][]ssa.Instruction      // the dynamic call instruction standing for those edges
+	entry    map[*ssa.Function]lockSet           // lock-set at function entry (intersection over call sites)
+	at       map[ssa.Instruction]lockSet         // lock-set just before each instruction
+	copyLock []ssa.Instruction                   // Lock calls on a mutex inside a by-value copy
+	acquires []acquireEv                         // every Lock/RLock with the set held at that point
+	callers  map[*ssa.Function][]ssa.Instruction // resolved call sites per callee
+	dynEdges map[*ssa.Function][]*ssa.Function   // extra call edges (task / retry closures invoked dynamically)
+	dynSites map[*ssa.Function][]ssa.Instruction // the dynamic call instruction standing for those edges
 }
 
 type acquireEv struct {
@@ -396,7 +396,7 @@ func (c *Ctx) ruleWaitUnderLock(rr *RuleRep) {
 		bad := false
 		for id := range held {
 			heldAcross[id] = true
-			if id != "BaseClient.muConnecting" {
+			if string(id) != "BaseClient."+aliasField("BaseClient", "muConnecting") {
 				bad = true
 				rr.Bad(key, op.In.Pos(), "blocking channel operation while holding %s: every other user of that lock (Done(), Handle(), the reader goroutine...) is blocked for as long as this wait lasts", id)
 			}
